@@ -16,6 +16,32 @@ def run(ctx):
     fails, diffs, samples = [], [], []
     evals = 0
     rules, mappings = rulemod.rules_dict, rulemod.node_mappings
+    # 0. the table is what the checks below read, whatever was asked of it before: every rule-introspection query (required
+    # attribute?, allowed values?, allowed child?, rule children) is run once for every rule and attribute, and the table compared
+    import copy as _copy, json as _json
+    table_before = _json.dumps(rules, sort_keys=False, default=str)
+    for rn in list(rules):
+        try:
+            robj = rulemod.Rule(rn)
+        except Exception:
+            continue
+        spec_attrs = rules[rn][0] if isinstance(rules[rn], list) and rules[rn] and isinstance(rules[rn][0], dict) else {}
+        for a in list(spec_attrs) + ["zzNoSuchAttribute"]:
+            for q in ("is_required_attribute", "allowed_attribute_values"):
+                try:
+                    getattr(robj, q)(a)
+                except Exception:
+                    pass
+        for q in ("is_allowed_child",):
+            try:
+                getattr(robj, q)("title")
+            except Exception:
+                pass
+        evals += 1
+    if _json.dumps(rules, sort_keys=False, default=str) != table_before:
+        changed = [rn for rn in rules if _json.dumps(rules[rn], default=str) not in table_before]
+        fails.append({"case": {"rules_changed_by_queries": changed[:5]},
+                      "what": f"the rule table was altered by the rule-introspection queries (rules {changed[:4]}): it is no longer the shipped table"})
     # 1. every known element resolves to an existing, constructible rule
     for e, rn in mappings.items():
         evals += 1
